@@ -20,6 +20,7 @@ import (
 	"context"
 	"crypto/sha256"
 	"encoding/binary"
+	"errors"
 	"fmt"
 	"time"
 
@@ -136,6 +137,7 @@ func (s *Snapshot) GetWithPrefix(ctx context.Context, prefix []byte, neq []byte)
 }
 
 func (s *Snapshot) GetWithPrefixAndFilters(ctx context.Context, prefix []byte, neq []byte, filters ...FilterFn) (key []byte, valRef ValueRef, err error) {
+nextKey:
 	key, indexedVal, tx, hc, err := s.snap.GetWithPrefix(prefix, neq)
 	if err != nil {
 		return nil, nil, err
@@ -152,6 +154,12 @@ func (s *Snapshot) GetWithPrefixAndFilters(ctx context.Context, prefix []byte, n
 		}
 
 		err = filter(valRef, s.ts)
+		if errors.Is(err, ErrKeyNotFound) {
+			// the entry is not visible (deleted or expired), the following
+			// one with the prefix may be (keys greater than neq are considered)
+			neq = key
+			goto nextKey
+		}
 		if err != nil {
 			return nil, nil, err
 		}
